@@ -63,6 +63,13 @@ MUTANTS = [
     ('m37', 'C13', 'break', 'skoolkit/loadtracer.py', "while index < max_index and edges[index + 1] < tstates:", "while index < max_index and edges[index + 1] <= tstates:", None),
     ('m38', 'C12', 'break', 'skoolkit/bin2tap.py', "    if tape_file.lower().endswith('.pzx'):", "    if tape_file.endswith('.pzx'):", None),
     ('m39', 'C01', 'break', 'skoolkit/disassembler.py', "                if value & 127 in (34, 92):\n                    return r'\"\\{}\"'.format(chr(value & 127)) + suffix", "                if value in (34, 92):\n                    return r'\"\\{}\"'.format(chr(value)) + suffix", None),
+    ('m40', 'C11', 'break', 'skoolkit/tape.py', "                for k, b in enumerate(data, 1):\n                    for j in range(8 if k < len(data) else timings.used_bits):\n                        for d in timings.one if b & 0x80 else timings.zero:\n                            if d:",
+     "                for k, b in enumerate(data):\n                    for j in range(8 if k < len(data) else timings.used_bits):\n                        for d in timings.one if b & 0x80 else timings.zero:\n                            if d:", None),
+    ('m41', 'C12', 'break', 'skoolkit/loadtracer.py', "                    state[1] = state[3]\n                    if state[1] == max_index:", "                    state[1] = state[3] - 1\n                    if state[1] == max_index:", None),
+    ('m42', 'C09', 'break', 'skoolkit/snapshot.py', "    dest_page, dest = _get_page(dest, 'move', param_str, src_page)", "    dest_page, dest = _get_page(dest, 'move', param_str, 0)", None),
+    ('m43', 'C15', 'break', 'skoolkit/graphics.py', "                self.mask = self._rotate_tile(self.mask, rotate & 2)", "                self.mask = self._rotate_tile(self.mask, rotate & 1)", None),
+    ('m44', 'C10', 'break', 'skoolkit/snapshot.py', "            if count > 4 or (count > 1 and prev_b == 237):\n                block.extend((237, 237, count, prev_b))\n            elif prev_b == 237:",
+     "            if count > 4 or (count > 2 and prev_b == 237):\n                block.extend((237, 237, count, prev_b))\n            elif prev_b == 237:", None),
     # harmless edits: must not raise an alarm
     ('h01', 'C05', 'harmless', 'skoolkit/simulator.py',
      "            pcn = registers[24] + 1\n            registers[:2] = af[registers[0]][memory[pcn % 65536]]\n            registers[15] = R1[registers[15]] # R\n            registers[25] += 7 # T-states\n            registers[24] = (pcn + 1) % 65536 # PC",
